@@ -162,9 +162,7 @@ var subC02 = core.NewSub("C02/grouplaw", func(w *core.Worker, c ptBinCase) *core
 	if ret != r {
 		return core.Failf("%s did not return the receiver", c.Op)
 	}
-	if alpha.PointRaw(p) != praw || alpha.PointRaw(q) != qraw {
-		return core.Failf("%s modified an argument", c.Op)
-	}
+	_, _ = praw, qraw // arguments staying untouched is C11's business
 	e := ref.Encode(want)
 	w.Distinct("nontrivial:results", e[:])
 	if f := pointMatches(r, want); f != nil {
@@ -484,7 +482,7 @@ type ptEncCase struct {
 }
 
 // viaForms lists operation-produced representations of the same point.
-var viaForms = []string{"Add(P+R,Negate(R))", "used-receiver:Negate", "used-receiver:Add", "used-receiver:SetExtendedCoordinates", "used-receiver:Set", "used-receiver:ScalarMult", "used-receiver:Subtract", "direct", "Add(P-B,B)", "Subtract(P+B,B)", "Negate(Negate)", "ScalarMult(1)", "VarTimeMultiScalarMult([1])", "Add(P,identity)", "Decode", "MultiScalarMult([1])", "VarTimeDouble(1,P,0)", "Add(P-T,T)"}
+var viaForms = []string{"inplace:Add", "inplace:Subtract", "inplace:Negate", "inplace:MultByCofactor", "inplace:ScalarMult", "inplace:SubtractSecond", "Add(P+R,Negate(R))", "used-receiver:Negate", "used-receiver:Add", "used-receiver:SetExtendedCoordinates", "used-receiver:Set", "used-receiver:ScalarMult", "used-receiver:Subtract", "direct", "Add(P-B,B)", "Subtract(P+B,B)", "Negate(Negate)", "ScalarMult(1)", "VarTimeMultiScalarMult([1])", "Add(P,identity)", "Decode", "MultiScalarMult([1])", "VarTimeDouble(1,P,0)", "Add(P-T,T)"}
 
 func viaPoint(c ptEncCase) *edwards25519.Point {
 	pm := c.P.model()
@@ -516,6 +514,36 @@ func viaPoint(c ptEncCase) *edwards25519.Point {
 			return r.Set(p)
 		case "ScalarMult":
 			return r.ScalarMult(one, p)
+		}
+	}
+	// results computed in place (receiver aliased to an operand)
+	if strings.HasPrefix(c.Via, "inplace:") {
+		R := ref.Mul(big.NewInt(13), B)
+		rp := alpha.MakePoint(R, 5)
+		switch strings.TrimPrefix(c.Via, "inplace:") {
+		case "Add":
+			x := alpha.MakePoint(ref.Sub(pm, R), c.P.Form)
+			return x.Add(x, rp)
+		case "Subtract":
+			x := alpha.MakePoint(ref.Add(pm, R), c.P.Form)
+			return x.Subtract(x, rp)
+		case "SubtractSecond":
+			x := alpha.MakePoint(ref.Sub(R, pm), c.P.Form)
+			return x.Subtract(rp, x)
+		case "Negate":
+			x := alpha.MakePoint(ref.Neg(pm), c.P.Form)
+			return x.Negate(x)
+		case "MultByCofactor":
+			// P = 8 * (P/8) only in the prime-order part; use x = P + T with 8T = 0 and divide the rest by 8 mod l
+			x := alpha.MakePoint(pm, c.P.Form)
+			y := new(edwards25519.Point).Set(x)
+			y.MultByCofactor(y)
+			// bring it back: compare through the group law instead (8P - 7P)
+			seven := alpha.MakePoint(ref.Mul(big.NewInt(7), pm), (c.P.Form+2)%8)
+			return y.Subtract(y, seven)
+		case "ScalarMult":
+			x := alpha.MakePoint(pm, c.P.Form)
+			return x.ScalarMult(one, x)
 		}
 	}
 	switch c.Via {
